@@ -72,3 +72,46 @@ M['C20'] = [
         ('src/memory.c', 'void cstl_shared_ptr_reset(cstl_shared_ptr_t * const sp)\n{\n    struct cstl_shared_ptr_data * const data =\n        cstl_guarded_ptr_get(&sp->data);',
          'static struct cstl_shared_ptr_data * sp_data(cstl_shared_ptr_t * const sp)\n{\n    return cstl_guarded_ptr_get(&sp->data);\n}\n\nvoid cstl_shared_ptr_reset(cstl_shared_ptr_t * const sp)\n{\n    struct cstl_shared_ptr_data * const data = sp_data(sp);')]),
 ]
+
+# ------------------------------------------------------------------------------------------- C09
+_VGUARD = '''    if (sz < SIZE_MAX
+        && v->elem.size > 0
+        && sz + 1 <= SIZE_MAX / v->elem.size) {
+        e = realloc(v->elem.base, (sz + 1) * v->elem.size);
+        if (e != NULL) {
+            v->elem.base = e;
+            v->cap = sz;
+        }
+    } /* else, the number of bytes can't be represented */'''
+M['C09'] = [
+    dict(id='c09-revert-fix-unguarded-size', kind='fault', rule='V1', edits=[
+        ('src/vector.c', _VGUARD, '    e = realloc(v->elem.base, (sz + 1) * v->elem.size);\n    if (e != NULL) {\n        v->elem.base = e;\n        v->cap = sz;\n    }')]),
+    dict(id='c09-guard-misses-sz-max', kind='fault', rule='V1', edits=[
+        ('src/vector.c', '    if (sz < SIZE_MAX\n        && v->elem.size > 0', '    if (v->elem.size > 0')]),
+    dict(id='c09-guard-wrong-divisor', kind='fault', rule='V1', edits=[
+        ('src/vector.c', '&& sz + 1 <= SIZE_MAX / v->elem.size) {', '&& sz <= SIZE_MAX / 2) {')]),
+    dict(id='c09-cap-committed-on-failure', kind='fault', rule='V2', edits=[
+        ('src/vector.c', '        if (e != NULL) {\n            v->elem.base = e;\n            v->cap = sz;\n        }', '        if (e != NULL) {\n            v->elem.base = e;\n        }\n        v->cap = sz;')]),
+    dict(id='c09-realloc-from-null', kind='fault', rule='V2', edits=[
+        ('src/vector.c', 'e = realloc(v->elem.base, (sz + 1) * v->elem.size);', 'e = realloc(NULL, (sz + 1) * v->elem.size);')]),
+    dict(id='c09-at-off-by-one', kind='fault', rule='V3', edits=[
+        ('src/vector.c', '    if (i >= v->count) {\n        abort();', '    if (i > v->count) {\n        abort();')]),
+    dict(id='c09-at-checks-capacity', kind='fault', rule='V3', edits=[
+        ('src/vector.c', '    if (i >= v->count) {\n        abort();', '    if (i >= v->cap) {\n        abort();')]),
+    dict(id='c09-resize-no-abort', kind='fault', rule='V4', edits=[
+        ('src/vector.c', '    if (v->cap < sz) {\n', '    if (0 && v->cap < sz) {\n')]),
+    dict(id='c09-resize-returns-instead-of-abort', kind='fault', rule='V4', edits=[
+        ('src/vector.c', '        abort(); // GCOV_EXCL_LINE', '        v->count = v->cap; return;')]),
+    dict(id='c09-no-scratch-element', kind='fault', rule='V7', edits=[
+        ('src/vector.c', '&& sz + 1 <= SIZE_MAX / v->elem.size) {\n        e = realloc(v->elem.base, (sz + 1) * v->elem.size);', '&& sz + 1 <= SIZE_MAX / v->elem.size) {\n        e = realloc(v->elem.base, (sz ? sz : 1) * v->elem.size);')]),
+    dict(id='c09-scratch-at-count', kind='fault', rule='V7', edits=[
+        ('src/vector.c', '        swap, __cstl_vector_at(v, v->cap),\n        algo);', '        swap, __cstl_vector_at(v, v->count),\n        algo);')]),
+    dict(id='c09-benign-guard-reordered', kind='benign', edits=[
+        ('src/vector.c', '    if (sz < SIZE_MAX\n        && v->elem.size > 0\n        && sz + 1 <= SIZE_MAX / v->elem.size) {', '    if (v->elem.size != 0 && sz != SIZE_MAX && (sz + 1) <= SIZE_MAX / v->elem.size) {')]),
+    dict(id='c09-benign-early-return', kind='benign', edits=[
+        ('src/vector.c', _VGUARD, '    if (sz == SIZE_MAX || v->elem.size == 0) {\n        return;\n    }\n    if (sz + 1 > SIZE_MAX / v->elem.size) {\n        return;\n    }\n    e = realloc(v->elem.base, (sz + 1) * v->elem.size);\n    if (e == NULL) {\n        return;\n    }\n    v->elem.base = e;\n    v->cap = sz;')]),
+    dict(id='c09-benign-at-negated', kind='benign', edits=[
+        ('src/vector.c', '    if (i >= v->count) {\n        abort();\n    }\n\n    return __cstl_vector_at(v, i);', '    if (i < v->count) {\n        return __cstl_vector_at(v, i);\n    }\n    abort();')]),
+    dict(id='c09-benign-setter-inlined-by-hand', kind='benign', edits=[
+        ('src/vector.c', '    if (sz > v->cap) {\n        cstl_vector_set_capacity(v, sz);\n    }', '    if (sz > v->cap && sz < SIZE_MAX && v->elem.size > 0 && sz + 1 <= SIZE_MAX / v->elem.size) {\n        void * const e = realloc(v->elem.base, (sz + 1) * v->elem.size);\n        if (e != NULL) {\n            v->elem.base = e;\n            v->cap = sz;\n        }\n    }')]),
+]
